@@ -368,7 +368,7 @@ impl Scheduler {
         debug_assert!(queue.core.lock().expect("JobQueue core lock").state.is_running());
 
         // Set the queue as active
-        let _active = ActiveQueue { queue: &*queue };
+        let _active = ActiveQueue::new(&*queue);
 
         // Call the function to get the result
         let result = job();
@@ -389,7 +389,7 @@ impl Scheduler {
         debug_assert!(queue.core.lock().expect("JobQueue core lock").state.is_running());
 
         // Set the queue as active
-        let _active = ActiveQueue { queue: &*queue };
+        let _active = ActiveQueue::new(&*queue);
 
         // When the task runs on the queue, we'll put it here
         let result = Arc::new((Mutex::new(None), Condvar::new()));
@@ -487,7 +487,7 @@ impl Scheduler {
 
                     if self.core.claim_pending_queue(queue) {
                         // We're now running the queue (if one of its jobs panics here, the queue is panicked, as in the other ways of running it)
-                        let _active = ActiveQueue { queue: &*queue };
+                        let _active = ActiveQueue::new(&*queue);
 
                         // Try to run jobs on it until it's ready
                         while !ready_mutex.lock().unwrap().finished {
